@@ -21,7 +21,7 @@ import (
 func init() {
 	Registry["C10"] = &Check{
 		Scenarios: c10Scenarios,
-		Rule: "server side: every history of <=4 (thorough 5) peer messages over {acceptable CER, CER without common application, retransmitted CER, DWR, RAR (app 0), RAA, CCR (app 4), ACR (app 3)}; client side (sm.Client.NewConn): every history of <=4 (thorough 5) messages over {success CEA, failing CEA, application-less CEA, a CER sent by the peer, DWR, RAR, RAA, CCA} sent in reply to the CER; application handlers registered by short name, by index and as catch-all (three configurations), each after attempts to register CER / CEA / DWR by name and by index; each history delivered in one segment and one segment per message. One deterministic schedule per history on the instrumented build (the quantifier is over histories; the scheduler supplies determinism and an exact notion of quiescence). Oracle: the sequence of application-handler invocations equals the gate model (invoked iff the handshake succeeded earlier on this connection), refused registrations never run, and the built-in CEA/DWA are still produced.",
+		Rule: "server side: every history of <=4 (thorough 5) peer messages over {acceptable CER, CER without common application, retransmitted CER, DWR, RAR (app 0), RAA, CCR (app 4), ACR (app 3)}; client side (sm.Client.NewConn): every history of <=4 (thorough 5) messages over {success CEA, failing CEA, application-less CEA, a CER sent by the peer, DWR, RAR, RAA, CCA} sent in reply to the CER; application handlers registered by short name, by index and as catch-all (three configurations), each after attempts to register CER / CEA / DWR by name and by index; each history delivered in one segment and one segment per message; and histories (one shorter, with an unsolicited success CEA added to the alphabet) on an accepted connection served by a state machine that is also the handler of an sm.Client whose dial has completed. One deterministic schedule per history on the instrumented build (the quantifier is over histories; the scheduler supplies determinism and an exact notion of quiescence). Oracle: the sequence of application-handler invocations equals the gate model (invoked iff the handshake succeeded earlier on this connection), refused registrations never run, and the built-in CEA/DWA are still produced.",
 		Assume: []string{"single default schedule per history", "reference gate model {handshake done, closed}"},
 		QuickBudget: 120, ThoroughBudget: 1800,
 	}
@@ -169,8 +169,111 @@ func c10Scenarios(tier string) []*Scenario {
 					Seq: func(r *SeqResult) { c10Client(r, cfg, oneSeg, c10Histories(c10ClientAlpha, first, maxLen)) }})
 			}
 		}
+		sharedAlpha := append(append([]string{}, c10ServerAlpha...), "cea")
+		for _, first := range sharedAlpha {
+			cfg, first := cfg, first
+			out = append(out, &Scenario{Name: fmt.Sprintf("shared-state-machine/%s/first=%s", cfg, first),
+				Seq: func(r *SeqResult) { c10Shared(r, cfg, c10Histories(sharedAlpha, first, maxLen-1)) }})
+		}
 	}
 	return out
+}
+
+// c10Shared: ONE state machine is used both by an sm.Client whose dial has completed and as the
+// handler of an accepted connection; the histories arrive on the accepted connection and may
+// contain an unsolicited success CEA. No application handler may run on that connection
+// before an acceptable CER was answered on it.
+func c10Shared(r *SeqResult, cfg string, hists [][]string) {
+	for _, hist := range hists {
+		hist := hist
+		run := &c10Run{}
+		var dialOK bool
+		s := vs.Run(nil, false, 5*time.Second, false, func() {
+			mach := sm.New(c10Settings())
+			c10Register(mach, cfg, run)
+			// 1. an outbound dial on this state machine completes
+			out := vnet.NewConn("OUT")
+			out.Pieces = 1
+			cli := &sm.Client{Handler: mach, Dict: dict.Default, MaxRetransmits: 0, RetransmitInterval: time.Second,
+				AuthApplicationID: []*diam.AVP{diam.NewAVP(avp.AuthApplicationID, avp.Mbit, 0, datatype.Unsigned32(4))}}
+			vs.GoNamed("peer-out", true, func() {
+				p := &Peer{C: out}
+				if cer := p.Next(); cer != nil {
+					out.Deliver(peerAnswer(cer, 2001, true))
+				}
+			})
+			c, err := cli.NewConn(out, "peer")
+			dialOK = c != nil && err == nil
+			// 2. an accepted connection served by the same state machine
+			in := vnet.NewConn("IN")
+			in.Pieces = 1
+			for i, k := range hist {
+				if k == "cea" {
+					fake := &PMsg{Hdr: refcodec.Header{Version: 1, Flags: 0x80, Code: 257, HbH: uint32(100 + i), E2E: uint32(100 + i)}}
+					in.Deliver(peerAnswer(fake, 2001, true))
+				} else {
+					in.Deliver(c10Msg(k, i))
+				}
+			}
+			if _, err := diam.NewConn(in, "peer2", mach, dict.Default); err != nil {
+				panic(err)
+			}
+		})
+		s.Teardown()
+		r.Cases++
+		r.Distinct++
+		if r.Sample == "" && len(hist) == 3 {
+			r.Sample = fmt.Sprintf("shared state machine (client dial done: %v), config=%s, history on the accepted connection %v -> invocations %v", dialOK, cfg, hist, run.invoked)
+		}
+		if r.Violation != "" {
+			continue
+		}
+		hs, closed, sawCEA := false, false, false
+		forbidden := map[string]bool{}
+		var want []string
+		for i, k := range hist {
+			switch k {
+			case "cer", "cer-retx":
+				// after an unsolicited CEA the connection may carry metadata already: a CER is then ignored
+				if !hs && !closed && !sawCEA {
+					hs = true
+				}
+			case "cer-noapp":
+				if !hs && !closed && !sawCEA {
+					closed = true
+				}
+			case "cea":
+				sawCEA = true
+			case "dwr":
+			default:
+				if !hs {
+					forbidden[c10Expect(cfg, k, i)] = true
+				} else if !sawCEA && !closed {
+					want = append(want, c10Expect(cfg, k, i))
+				}
+			}
+		}
+		v := ""
+		for _, inv := range run.invoked {
+			if forbidden[inv] {
+				v = fmt.Sprintf("application handler %s ran on the accepted connection although no CER had been accepted on it (invocations %v)", inv, run.invoked)
+			}
+		}
+		if v == "" && !dialOK {
+			v = "harness: the preliminary client dial failed"
+		}
+		// (No "required" half here: a client dial replaces the state machine's CER processing, so
+		// whether an accepted connection of a shared state machine can complete a handshake at all
+		// is outside the statement; only the gate is checked.)
+		_ = want
+		if v == "" && len(run.forbidden) > 0 {
+			v = fmt.Sprintf("a handler whose registration must be refused was invoked: %v", run.forbidden)
+		}
+		if v != "" {
+			r.Violation = fmt.Sprintf("state machine shared between a completed client dial and an accepted connection, handlers registered by %s, history on the accepted connection %v: %s", cfg, hist, v)
+			r.Case = map[string]interface{}{"side": "shared", "cfg": cfg, "history": hist}
+		}
+	}
 }
 
 func c10Expect(cfg string, kind string, seq int) string {
